@@ -408,6 +408,14 @@ def _carried(ctx):
                     co = t.origin(tt['args'][1])
                     cb = f.body(co['rv']['closure']) if co['o'] == 'rvalue' and co['rv'].get('agg') == 'closure' else None
                     okc = False
+                    if cb is None and co['o'] == 'const' and not co.get('p'):
+                        # the parser passed as a function item: `.map(Transform2::from_operations)`
+                        fnm = co['c'].get('fn') or co['c'].get('resolved') or ''
+                        if not fnm:
+                            import re as _re
+                            m_ = _re.search(r'\{([^{}]*)\}\s*$', co['c'].get('ty', ''))
+                            fnm = m_.group(1) if m_ else ''
+                        okc = fnm.replace('packing::', '').endswith('Transform2::from_operations')
                     if cb is not None:
                         rep.saw(cb)
                         tc = Tracer(cb)
